@@ -15,6 +15,9 @@ ACCUS = (0, 1, 0x7FFF, 0x8000, 0xFFFF)
 CELLS = (0, 1, 0xFFFF)
 
 
+DRIVES = ("step", "single", "halves", "beside")
+
+
 def alphabet():
     A = []
     for op in range(16):
@@ -28,6 +31,10 @@ def compare_run(words, data, accu, steps, light=False, drive="step"):
     sim = toy.make_toy(words, data, accu)
     ref = ToyRef(words, data, accu)
     bad = []
+    comp = None
+    if drive == "beside":
+        # a second, independent simulation is alive and advanced in alternation: same opcodes, other addresses, other accu
+        comp = toy.make_toy([(w & 0xF000) | ((w + 0x7F3) & 0xFFF) for w in words] + [0x1FF0, 0x2FF1, 0x3FF2], {}, 1 - (accu & 1))
     if toy.snapshot(sim) != ref.snapshot():
         return ref, [("initial", f"initial state {toy.snapshot(sim)[:6]} vs reference {ref.snapshot()[:6]}")]
     n = 0
@@ -44,6 +51,12 @@ def compare_run(words, data, accu, steps, light=False, drive="step"):
             elif drive == "single":
                 sim.single_step()
                 sim.single_step()
+                r = not sim.is_done()
+            elif drive == "beside":
+                for _half in (0, 1):
+                    sim.single_step()
+                    if not comp.is_done():
+                        comp.single_step()
                 r = not sim.is_done()
             else:
                 sim.first_cycle_step()
@@ -126,7 +139,7 @@ def prog_shard(shard):
         words = [A[i] for i in idx]
         for accu in (0, 1):
             # every instruction counts once and costs two cycles however it is driven: whole steps, single cycles, explicit halves
-            for drive in (("step", "single", "halves") if length <= 2 else (("step", "single", "halves")[(sum(idx) + accu) % 3],)):
+            for drive in (DRIVES if length <= 2 else (DRIVES[(sum(idx) + accu) % 4], "beside")):
                 ref, bad = compare_run(words, {4095: 0x2001, 2: words[2] if len(words) > 2 else 0x9000}, accu, steps, drive=drive)
                 p.evaluations += 1
                 p.counters["driven-by-" + drive] += 1
@@ -160,7 +173,7 @@ def wrap_shard(shard):
 def run(ctx):
     ctx.rule = ("(a) every 16-bit word as the first instruction x accu in {0,1,0x7FFF,0x8000,0xFFFF} x operand cell in {0,1,0xFFFF} x program length {1,2}, one "
                 "whole step (incl. words addressing themselves, the next instruction and 4095; opcodes 13-15 placed directly in memory); (b) every program up "
-                "to a length bound over a 40-word alphabet (each opcode 0..15 x address in {0,1,2,4095}) from accu in {0,1}, driven by whole steps, by single cycles and by explicit half cycles, to a horizon; (c) a "
+                "to a length bound over a 40-word alphabet (each opcode 0..15 x address in {0,1,2,4095}) from accu in {0,1}, driven by whole steps, by single cycles, by explicit half cycles, and by single cycles in alternation with a second independent simulation (same opcodes, other addresses) that must not influence it, to a horizon; (c) a "
                 "4096-word program run across the 4095 -> 0 wrap. After every step accu, pc, instruction register, the whole memory, cycles == 2 x "
                 "instructions, instruction and branch counts and step()'s return value are compared with the reference machine. Non-trivial = the reference "
                 "run changes accu or memory, takes a branch, modifies the program or wraps.")
@@ -185,4 +198,4 @@ def run(ctx):
     t0 = time.time()
     part = pmap(wrap_shard, [0x2000, 0x9000, 0x2FFF, 0x0FFF, 0x2005, 0x1FFF])
     ctx.space("pc-wrap-4096-words", part, t0)
-    ctx.require("self-modify", "taken", "branch-out", "pc-wrap", "horizon", "driven-by-single", "driven-by-halves")
+    ctx.require("self-modify", "taken", "branch-out", "pc-wrap", "horizon", "driven-by-single", "driven-by-halves", "driven-by-beside")
